@@ -207,3 +207,29 @@ func verifAllZero(u *verifBlockU) bool {
 	}
 	return true
 }
+
+// C07/C16 (finding F5b): a stake move whose target candidate R is removed from
+// the candidate list (as RecalculateStakesV2 does for candidates ranked beyond
+// 100) before the move matures.  BeginBlock at the maturity height must not
+// panic and the moved coins must not vanish.
+func VerifHarness_Block_MoveTargetGone() {
+	u := verifBlockUniverse()
+	st := u.bc.stateDeliver
+	const H = 1000
+	R := verifPubkey(3)
+	st.Candidates.Create(u.ownerP, u.ownerP, u.ownerP, R, 10, 0, 0)
+	st.Candidates.SetOnline(R)
+	idP, idR := st.Candidates.ID(u.P), st.Candidates.ID(R)
+	fMove := verifBigPos("ff.move")
+	pP := u.P
+	st.FrozenFunds.AddFund(H, u.D2, &pP, idP, 0, fMove, idR)
+	st.Candidates.DeleteCandidate(H-1, st.Candidates.GetCandidate(R))
+	verifAssert("setup:target-removed", !st.Candidates.Exists(R))
+	heights := []uint64{H, H + types.GetUnbondPeriod()}
+	bal := st.Accounts.GetBalance(u.D2, 0)
+	ledger0 := verifStakeLedger(u, heights)
+	verifBegin(u, H, nil, 3)
+	verifAssert("C01:base-ledger-unchanged", ledger0.Cmp(verifStakeLedger(u, heights)) == 0)
+	verifAssert("C16:matured-batch-deleted", len(st.FrozenFunds.VerifLive(H)) == 0)
+	_ = bal
+}
